@@ -39,7 +39,45 @@ def _theta_prime(name, theta):
     return -theta / 2 if name in ("rxx", "ryy", "rzz") else theta / 4
 
 
+# --- deterministic families (seed independent, oracle always run) --------------------------------------------------------------------------
+# composite two-qubit gates that have no matrix of their own and whose definition is ONE two-qubit gate (QuantumCircuit.to_gate(), a box in a
+# box, Gate.repeat(1), MCPhaseGate with one control), the inner gate placed on the box's qubits in either order; inner gates that are not
+# symmetric under exchange of their qubits and symmetric ones.  The package may refuse a box or support it, but a basis it hands out must
+# decompose the box (Operator of its definition, qubit order included), not the bare inner gate.
+BOX_INNER = [("cx", []), ("cy", []), ("ch", []), ("cs", []), ("csx", []), ("ecr", []), ("dcx", []), ("crx", [0.9]), ("cry", [-0.6]),
+             ("crz", [2.2]), ("rzx", [0.5]), ("unitary", [5, 2]), ("cz", []), ("cp", [1.3]), ("rzz", [-1.1]), ("swap", []), ("iswap", [])]
+# the angle of rxx/ryy/rzz/crx/cry/crz/cp handed over in every form Qiskit lets a gate be built with: python int, numpy scalar, fully bound
+# ParameterExpression (real; real after complex arithmetic; NOT real).  A gate whose bound angle is not real has no unitary, hence no channel
+# to decompose: it must be refused.  Each entry: form -> (is the value real, builder of the parameter from the reference value v)
+ANGLE_FORMS = ["int", "np64", "bound", "cplxreal", "plus0j", "imag", "cplx", "shift"]
+NONREAL_FORMS = ("imag", "cplx", "shift")
+
+
+def _det_cases():
+    extra = {"or_exact": True, "always_oracle": True}
+    for i, (g_, ps) in enumerate(BOX_INNER):
+        yield ("refuse", {"gate": "box:" + g_, "params": ps, "order": [1, 0], "depth": 1, **extra})
+        if i % 4 == 0:
+            yield ("refuse", {"gate": "box:" + g_, "params": ps, "order": [0, 1], "depth": 1, **extra})
+    yield ("refuse", {"gate": "box:cx", "params": [], "order": [1, 0], "depth": 2, **extra})
+    yield ("refuse", {"gate": "box:cry", "params": [0.8], "order": [1, 0], "depth": 3, **extra})
+    yield ("refuse", {"gate": "box_outer_rev:crx", "params": [0.9], **extra})   # box[ box[crx(0,1)] on (1,0) ]
+    yield ("refuse", {"gate": "box_repeat1:cx", "params": [], **extra})
+    yield ("refuse", {"gate": "box_repeat1:crz", "params": [0.7], **extra})
+    yield ("refuse", {"gate": "box_mcphase1", "params": [0.8], **extra})
+    yield ("refuse", {"gate": "box_two:cx", "params": [], "order": [1, 0], **extra})  # two instructions in the definition: h(0); cx(1,0)
+    yield ("refuse", {"gate": "box_phase:cx", "params": [], "order": [1, 0], **extra})  # one instruction plus a global phase
+    vals = {"imag": 0.6, "cplx": 1.1, "shift": math.pi / 2}
+    for i, name in enumerate(FAMS):
+        for form in NONREAL_FORMS:
+            yield ("refuse", {"gate": "angle_form:" + name, "form": form, "params": [vals[form]], **extra})
+        for form in (ANGLE_FORMS[i % 5], ANGLE_FORMS[(i + 2) % 5]):
+            v = [2, 0.7, 0.7, 0.9, -5, 3, -1.3][i] if form != "int" else [2, -3, 1, 7, -1, 4, 3][i]
+            yield ("refuse", {"gate": "angle_form:" + name, "form": form, "params": [v], **extra})
+
+
 def cases(rng, tier):
+    yield from _det_cases()
     reps = 6 if tier == "quick" else 60
     for name in FAMS:
         for th in gen.SPECIAL_ANGLES + [rng.uniform(-8 * math.pi, 8 * math.pi) for _ in range(reps)]:
@@ -131,6 +169,10 @@ def _gate(payload):
             except Exception:
                 return MCPhaseGate(0.7, 2)
         return MCPhaseGate(0.7, 2 if n == "mcphase2" else 3)
+    if n.startswith("box"):
+        return _box(payload)
+    if n.startswith("angle_form:"):
+        return _lib_cls(n.split(":")[1])(_angle_param(payload["form"], payload["params"][0]))
     if n.startswith("annot_"):
         from qiskit.circuit import AnnotatedOperation, InverseModifier, PowerModifier
         how, base = n.split(":")
@@ -154,6 +196,78 @@ def _gate(payload):
         import pickle
         g = pickle.loads(pickle.dumps(g))
     return g
+
+
+def _lib_cls(name):
+    from qiskit.circuit import library as L
+    return {"rxx": L.RXXGate, "ryy": L.RYYGate, "rzz": L.RZZGate, "crx": L.CRXGate, "cry": L.CRYGate, "crz": L.CRZGate, "cp": L.CPhaseGate}[name]
+
+
+def _angle_param(form, v):
+    """the reference angle v (a real number) in the requested form; the forms of NONREAL_FORMS give a value that is not real"""
+    from qiskit.circuit import Parameter
+    p = Parameter("p")
+    if form == "int":
+        assert int(v) == v
+        return int(v)
+    if form == "np64":
+        return np.float64(v)
+    if form == "bound":
+        return (2 * p).bind({p: v / 2})
+    if form == "cplxreal":
+        return (p * 1j * -1j).bind({p: v})
+    if form == "plus0j":
+        return (-p + 0j).bind({p: -v})
+    if form == "imag":
+        return (p * 1j).bind({p: v})
+    if form == "cplx":
+        return (p * (1 + 0.05j)).bind({p: v})
+    if form == "shift":
+        return (p + 0.4j).bind({p: v})
+    raise KeyError(form)
+
+
+def _box(payload):
+    """a composite gate (no to_matrix of its own) around one two-qubit gate"""
+    from qiskit import QuantumCircuit
+    n = payload["gate"]
+    how, _, inner_name = n.partition(":")
+    ps = payload.get("params", ())
+    if how == "box_mcphase1":
+        from qiskit.circuit.library import MCPhaseGate
+        return MCPhaseGate(ps[0], 1)
+    inner = canon.mk_op(inner_name, ps)
+    if how == "box_repeat1":
+        return inner.repeat(1)
+    if how == "box_outer_rev":
+        qc = QuantumCircuit(2)
+        qc.append(inner, [0, 1])
+        out = QuantumCircuit(2)
+        out.append(qc.to_gate(), [1, 0])
+        return out.to_gate()
+    qc = QuantumCircuit(2)
+    if how == "box_two":
+        qc.h(0)
+    if how == "box_phase":
+        qc.global_phase = 0.3
+    qc.append(inner, list(payload.get("order", [0, 1])))
+    g = qc.to_gate()
+    for _ in range(int(payload.get("depth", 1)) - 1):
+        qc = QuantumCircuit(2)
+        qc.append(g, [0, 1])
+        g = qc.to_gate()
+    return g
+
+
+def _wrapped_target(payload, g):
+    """4x4 unitary of the instruction a wrapped / re-expressed case asks for, computed without the package; None when the instruction has
+    no unitary at all (an angle that is not real), i.e. when there is nothing a basis could decompose"""
+    from qiskit.quantum_info import Operator
+    if payload["gate"].startswith("angle_form:"):
+        if payload["form"] in NONREAL_FORMS:
+            return None
+        return Operator(canon.mk_op(payload["gate"].split(":")[1], [float(payload["params"][0])])).data
+    return Operator(g).data
 
 
 def _env(kind, payload, gate=None):
@@ -229,8 +343,10 @@ def run_real(kind, payload):
     b = QPDBasis.from_instruction(g)
     if kind == "refuse":
         if payload.get("or_exact"):
-            from qiskit.quantum_info import Operator
-            err = float(np.abs(channel.basis_ptm(b) - channel.ptm2_kraus([Operator(g).data])).max())
+            U = _wrapped_target(payload, g)
+            if U is None:
+                return {"ok": "basis produced for an instruction that has no unitary (its angle is not real)"}
+            err = float(np.abs(channel.basis_ptm(b) - channel.ptm2_kraus([U])).max())
             if err <= 1e-7:
                 return {"error": "ValueError", "note": "supported and exact"}  # as good as a refusal for this clause
             return {"ok": f"basis produced that is not exact for the wrapped instruction (error {err:.3e})"}
@@ -323,9 +439,14 @@ def oracle(kind, payload):
             return None
         except Exception as ex:
             return f"wrapped instruction {payload['gate']} raised {type(ex).__name__} instead of ValueError"
-        err = float(np.abs(channel.basis_ptm(b) - channel.ptm2_kraus([Operator(g).data])).max())
-        return None if err <= 1e-7 else (f"the basis handed out for the wrapped instruction {payload['gate']} is not an exact decomposition of it: "
-                                         f"max transfer-matrix error {err:.3e}")
+        what = {k: payload[k] for k in ("gate", "params", "order", "depth", "form") if k in payload}
+        U = _wrapped_target(payload, g)
+        if U is None:
+            return (f"instruction {what} has an angle that is not real ({g.params[0]}), so it has no unitary and cannot be decomposed, "
+                    f"yet it was not refused: a basis with {len(b.maps)} maps was handed out")
+        err = float(np.abs(channel.basis_ptm(b) - channel.ptm2_kraus([U])).max())
+        return None if err <= 1e-7 else (f"the basis handed out for the wrapped instruction {what if len(what) > 1 else payload['gate']} is not an exact "
+                                         f"decomposition of it: max transfer-matrix error {err:.3e}")
     if kind == "refuse":
         try:
             QPDBasis.from_instruction(g)
